@@ -88,6 +88,26 @@ def p_error_any(has_tok: bool, value: str, tl: int, ll: int, number: bool) -> No
     hlib.done()
 
 
+ILLEGAL = ['\x00', '\r', '\x0c', '\x1b', '\x7f', '!', '?', '\xa0', '\u200b', '"', '%', '\ud800', '\U0010ffff', '$', '\\', '\x85', '~', '`']
+
+
+def t_error_chars(ci: int, rest: str) -> None:
+    """
+    pre: 0 <= ci < 18 and len(rest) <= 2
+    post: True
+    """
+    # concrete offending characters (control characters, unnamed and unassigned code points, lone surrogates)
+    hlib.enter(locals())
+    ch = ILLEGAL[hlib.concrete(ci, 0, 17)]
+    raised = None
+    try:
+        lexer.t_error(_Tok('error', ch + 'ab', 1, _Lexer(1)))
+    except Exception as e:
+        raised = e
+    assert isinstance(raised, ParserError), "t_error does not raise ParserError for %r" % ch
+    hlib.done()
+
+
 def t_error_any(value: str) -> None:
     """
     pre: 1 <= len(value) <= 3
